@@ -52,6 +52,15 @@ FRAMINGS = {
     "portability": "a PORTABILITY change. The edit is made for another platform or file system (Windows path separators and drive letters, "
                    "newline translation, case-insensitive or Unicode-normalising file names, long paths, read-only files and permission bits, "
                    "symlinks and junctions, locale-dependent number or text handling) and subtly changes behaviour on this one.",
+    "simplify": "a SIMPLIFICATION that removes something 'redundant'. The edit deletes or merges code that looks unnecessary (a second "
+                "check, a defensive copy, a reset, a strip(), a re-parse, a clamp, an else branch, a special case, an isinstance test, a "
+                "temporary variable) and is in fact needed in one corner.",
+    "specialcase": "a BUG-REPORT FIX that over-reaches. The edit special-cases or 'fixes' one reported input or situation (a particular colour "
+                   "format, selector shape, file name, at-rule, option combination) with a condition that is slightly too broad or too "
+                   "narrow, so that neighbouring inputs that used to work now behave differently.",
+    "modernise": "a MODERNISATION of types or structure. The edit converts something to a more modern construct (a dataclass / NamedTuple / "
+                 "__slots__ / Enum / f-string / pathlib / walrus / match statement / comprehension / functools helper / typing-driven "
+                 "signature change) and silently changes equality, hashing, truthiness, ordering, laziness, default handling or text formatting.",
     "ordering": "an ORDERING change. The edit re-orders two steps, or the traversal / iteration / sort order of something, for a plausible reason; "
                 "each order is fine for most inputs.",
 }
